@@ -207,8 +207,8 @@ pub fn run(cx: &Ctx) {
     cx.label("exhaustive");
     cx.run_enum(&MergeAll, total, |i| Some(all[i as usize].clone()), "sequences of length 1..=4 over 3 alphabets of 3 values x all chunkings into <= 4 chunks x all merge orders");
     let w = cx.workers;
-    let cases = cx.by(400, 6000);
-    let big = cx.by(6000, 30000);
+    let cases = cx.by(2500, 30000);
+    let big = cx.by(8000, 30000);
     cx.label("generated");
     cx.run_pt(&MergeAll, cases, w, move || chunked_strategy(3000, big, 11.9), "random data sets n <= 30000 (quick 6000) x random chunkings x 4 tree modes");
     cx.label("long-chunks");
@@ -233,7 +233,7 @@ pub fn run(cx: &Ctx) {
             })
         };
         cx.label("bulk");
-        cx.run_pt(&MergeAll, 2, w, bulk, "bulk n = 1e5");
+        cx.run_pt(&MergeAll, 4, w, bulk, "bulk n = 1e5");
     }
 }
 
